@@ -233,7 +233,7 @@ def independence_probe(kind, seq, path):
         A2.update(B2)
         et = B2.get_event_type('ta')
         if et is not None and 'p' in et:
-            et.set_version(et.get_version() + 1)
+            et.set_version(max(et.get_version(), A2.get_event_type('ta').get_version()) + 1)      # newer than both
             et['p'].set_description('later change')
             try:
                 A2.update(B2)
@@ -273,7 +273,7 @@ def main(argv):
     ck.prove()
     rng = ck.rng
     E = OL.edit_catalogue()
-    n = ck.budget(240, 8000)
+    n = ck.budget(270, 8000)
     terms, metas, seen = [], [], set()
     defs = {}
 
@@ -313,6 +313,16 @@ def main(argv):
             OL._et(b2)['version'] = 3
             directed.append(('chain', [OL.base_ontology(), b1, b2], False))
             directed.append(('chain', [b1, OL.base_ontology(), b2], False))
+    # a definition that differs from the other one in its version only is still the newer one
+    for sel in (lambda o: OL._ot(o, 'o'), lambda o: o['concepts'][0], lambda o: o['sources'][0], OL._et):
+        for v in (2, 3):
+            b1 = OL.base_ontology()
+            sel(b1)['version'] = v
+            directed += [('one-sided', [OL.base_ontology(), b1], False), ('one-sided', [b1, OL.base_ontology()], False)]
+            if v == 3:
+                b0 = OL.base_ontology()
+                sel(b0)['version'] = 2
+                directed.append(('chain', [OL.base_ontology(), b1, b0], False))      # v1, v3, v2: ends at v3
     # the same definitions, the parent's property map written in another order: nothing to update, nothing to refuse
     m1, m2 = OL.two_entry_parent('r:k2,p:k'), OL.two_entry_parent('p:k,r:k2')
     directed += [('identical', [m1, m2], False), ('identical', [m2, m1], False)]
